@@ -16,7 +16,7 @@ NOTE = ("Trusted: TLC, sqlite as the database under test (the server's MySQL pat
 TECHNIQUE = "TLA+ model checking (TLC) + enumeration of every single-fault scenario against the real handler + gated ID interleavings with trace validation"
 DESIGN_REF = "DESIGN.md section 4 C20"
 
-RULE = ("(M) exhaustive TLC on Upload.tla (2 uploaders x <=2 files x <=2 records, 1 fault, 2 days) with liveness; negative control "
+RULE = ("(M) exhaustive TLC on Upload.tla (2 uploaders x <=2 files x <=2 records, 1 fault, 2 days; thorough also <=3 records, 2 faults, and 3 uploaders x 1 file) with liveness; negative control "
         "CommitBeforeClose must violate VisibleOnlyAfterStored; (G) all terminal fault scenarios of the single-uploader model, each "
         "expanded into every applicable concrete fault kind x {MemFS, local FS}; all interleavings of two ID allocations incl. a day "
         "change, imposed by the hook gate; (T) the observed ID steps validated by Upload_idtrace. distinct_nontrivial = fault "
@@ -27,6 +27,9 @@ def run(ctx):
     ctx.build()
     q = ctx.quick
     ctx.tlc("Upload.tla", "Upload_mc_quick.cfg" if q else "Upload_mc_thorough.cfg", timeout=3000)
+    if not q:
+        ctx.tlc("Upload.tla", "Upload_mc_thorough2.cfg", timeout=3000)                 # two faults
+        ctx.tlc("Upload.tla", "Upload_mc_thorough3.cfg", timeout=5000, workers=12)     # three uploaders
     neg = ctx.tlc("Upload.tla", "Upload_neg.cfg", timeout=600, expect_ok=False, count=False)
     if not (neg.error and "VisibleOnlyAfterStored" in neg.out):
         raise vlib.Infra("negative control CommitBeforeClose did not violate VisibleOnlyAfterStored")
